@@ -76,7 +76,7 @@ def streams(tier, rng, fs, profile):
     for ty in ("f64", "f32"):
         cases = gens.float_bits_cases(rng, ty, 300 if quick else 20000, rich=True)
         if quick:
-            cases = rng.sample(cases, 1500) + cases[-8:]
+            cases = rng.sample(cases, min(len(cases), 1500)) + cases[-8:]
         out.append(("float-write-default-" + ty, pairs(gens.float_write_default_ops(rng, ty, sorted(set(cases))))))
     # float write with options, punctuation and special strings
     fmts = [gens.pack(10)]
@@ -85,8 +85,8 @@ def streams(tier, rng, fs, profile):
     rfm = [gens.pack(r) for r in gens.radices(fs) if r != 10]
     ops = []
     for ty in ("f64", "f32"):
-        cases = gens.float_bits_cases(rng, ty, 200, rich=True)
-        vals = rng.sample(cases, 700 if quick else 6000) + cases[-8:] + gw.curated_bits(ty)
+        cases = gens.float_bits_cases(rng, ty, 200 if quick else 3000, rich=True)
+        vals = rng.sample(cases, min(len(cases), 700 if quick else 6000)) + cases[-8:] + gw.curated_bits(ty)
         for bits in vals:
             if rfm and rng.random() < 0.3:
                 f = rng.choice(rfm)
